@@ -984,3 +984,37 @@ Proof.
   inversion H as [|? ? _ H1]; subst. inversion H1 as [|? ? H2 _]; subst.
   exact (not_under_dotdot H2).
 Qed.
+
+(* ---------- several top-level sources with the same base name -------------------------------- *)
+
+(* two sources named "x": a link to "/o", then a directory holding "e" *)
+Definition w_two : list (bytes * node) :=
+  [([120], Link [47;111] Broken); ([120], Dir [([101], File true)] true)].
+Definition w_orc2 (p : bytes) : res := if zlist_eqb p [100;47;120] then RDir else RNone.
+
+(* a `symlinks` set per source (seeded change C13-e) lets the second source be written through the
+   link the first one created *)
+Theorem copy_per_source_set_refuted :
+  exists orc c dst srcs fs0,
+    no_links fs0 /\ dupcheck c = true /\ presfix c = true /\
+    Forall (fun e => mem_z SLASH (fst e) = false) srcs /\
+    exists l1 t q th l2 o,
+      copy_plan_persrc orc c dst srcs fs0 = l1 ++ OSymlink t q true th :: l2 /\ In o l2 /\
+      strict o = true /\ zprefix (q ++ [SLASH]) (op_path o) = true /\ op_thru o = true.
+Proof.
+  exists w_orc2, (mkcfg false true false false), w_dst, w_two, w_fs0.
+  split; [exact w_fs0_no_links|]. split; [reflexivity|]. split; [reflexivity|].
+  split; [repeat constructor|].
+  exists [OIsdir [100] true false], [47;111], [100;47;120], false,
+         [OIsdir [100;47;120] true true; OWrite [100;47;120;47;101] true true],
+         (OWrite [100;47;120;47;101] true true).
+  split; [vm_compute; reflexivity|]. split; [right; left; reflexivity|].
+  split; [reflexivity|]. split; reflexivity.
+Qed.
+
+(* the code as it is rejects the second "x" of the same call *)
+Lemma copy_two_sources_rejected :
+  begin_copy w_orc2 (mkcfg false true false false) 3 w_dst w_two w_fs0 =
+  ([OIsdir [100] true false; OSymlink [47;111] [100;47;120] true false],
+   ([([100;47;120], KLink); ([100], KDir)], [[100;47;120]]), Some EBad).
+Proof. vm_compute. reflexivity. Qed.
